@@ -83,11 +83,10 @@ theorem C23_partial (P : Params) (rw : Bool) (d : Disk) (hl : d.blk.length = P.n
       | some data =>
         simp only [usableCow, Bool.and_eq_true, beq_iff_eq, bne_iff_ne, ne_eq] at h
         obtain ⟨⟨h1, h2⟩, h3⟩ := h
-        have hne : ¬ data = [] := by intro e; apply h2; rw [e]; rfl
         refine ⟨data, ?_, h3, Or.inr rfl⟩
         simp only at hl hv
         have hP : ¬ P.n = 0 := by omega
-        simp [readAndRestore, hl, hv, checkCow, h1, h3, hne, hP]
+        simp [readAndRestore, hl, hv, checkCow, h1, h3, hP]
 
 /-- non-vacuity of `C23_partial`'s hypothesis on a non-trivial state: an invalid block with a usable backup -/
 example : valid toy [7, 9, 0, 0, 0] = false ∧ usableCow toy (some [1, 2, 0, 0, 0]) = true ∧
@@ -130,10 +129,9 @@ theorem fixed_agrees_when_servable (P : Params) (rw : Bool) (d : Disk)
         | some data =>
           simp only [usableCow, Bool.and_eq_true, beq_iff_eq, bne_iff_ne, ne_eq] at h
           obtain ⟨⟨h1, h2⟩, h3⟩ := h
-          have hne : ¬ data = [] := by intro e; apply h2; rw [e]; rfl
           simp only at hl hv
           have hP : ¬ P.n = 0 := by omega
-          simp [hl, hv, checkCow, h1, h3, hne, hP]
+          simp [hl, hv, checkCow, h1, h3, hP]
   · simp [hl]
 
 /-! ### corrupted ⇒ checksum fails, for the real CRC-32 and any change confined to one byte -/
